@@ -39,4 +39,16 @@ CHECKS = {
         'style key present after synchronisation iff a property remains; style equality is lookup-equality (order ignored); reachable-state invariant. Tie: exhaustive/sampled/random write '
         'histories over 6 properties x 6 values x 7 whole-style strings on 4 element origins, all views after every write.',
    note='Trusted: Coq kernel + vm_compute; harness; translator for the dispatch tables (Gen/Tables.v regenerated from constants.py each run); CPython dict order and ASCII str methods as transcribed in Model/Str.v; html.parser/pickle/copy for the views compared by the oracle only. Model: SpecialAttributesDict, StyleAttribute, DOMTokenList and the Tags.py accessors (Model/Attr.v).' + ' Partial: styleToDict(as_str d) = d is checked on every reached state by oracle and in one Example, not proved for all d; non-aliasing is by construction in the model and checked by the oracle.'),
+ 'C04': dict(
+   text='Theorems (Coq, closed): the invariant list of the property (children = element entries of blocks in order, parent/owner links, text = concatenation of text blocks, '
+        'self-closing only when empty, one owner throughout a document and none throughout a detached tree) is preserved by every public mutator from every well-formed world, '
+        'hence on every reachable state of every history; every parser-built / API-built seed and fresh element satisfies it; appendChild/insert/removeChild permute the multiset of uids '
+        '(nothing created, lost, duplicated). Tie: random and single-call histories run on the real objects and on the model in coqc, the complete world compared after every call; the '
+        'invariant list and all navigation properties are also evaluated directly on the real objects after every call.',
+   note='Trusted: Coq kernel + vm_compute; harness; uuid4 freshness; list.index/remove through AdvancedTag.__eq__ and str.replace/in as transcribed in Model/Dom.v. Model: Tags.py mutators 456-835 (after the fix commits) on a world of trees with all redundant fields kept.' + ' Partial: navigation accessors and appendInnerHTML are checked on the implementation by the oracle only.'),
+ 'C05': dict(
+   text='Theorems (Coq, closed): every mutator refines the plain list-of-blocks reference document (Spec/RefDoc.v): forgetting the redundant fields of the new world gives the reference\'s new '
+        'state and the return values agree (removeChild/removeBlock under the C04 invariant); calls that fail (bad reference block, non-child, appendChild(None)) return the world unchanged. '
+        'Tie: the C04 history space executed in lock-step on library, model and an independent Python reference document (return values, outerHTML, innerHTML, textContent, block structure).',
+   note='Trusted: Coq kernel + vm_compute; harness; uuid4 freshness; list.index/remove through AdvancedTag.__eq__ and str.replace/in as transcribed in Model/Dom.v. Model: Tags.py mutators 456-835 (after the fix commits) on a world of trees with all redundant fields kept.' + ' Partial: remove() is tied through removeChild (its use of the parentNode link is covered by C04 + correspondence); serialisation views are checked by the oracle, their model arrives with C01.'),
 }
